@@ -12,7 +12,9 @@
 //   limit · unlimit                                              (RLIMIT_NOFILE = lowest free descriptor)
 // events: accepted <k> · cb newConn <k> · closed <k> · idle closed · idle opened · user closed <k> ·
 //   stale close · abort fatal-log;  environment: `< poll [listen]`, `< accept ok|Exxx`;
-//   oracle only: `# it <iteration()>`, `# clients <j>:<open|eof|rst>…`, `# poll EINTR`, `# fdscan <n>`
+//   oracle only: `# it <iteration()>`, `# clients <j>:<open|eof|rst>…`, `# poll EINTR`, `# fdscan <n>`,
+//   `# client <j> local <ip:port>` (getsockname of the harness's own client socket after connect),
+//   `# peer <k> <ip:port the callback was given> kernel <getpeername of the accepted descriptor>`
 #include "interpose.h"
 #include "common.h"
 #include "loopstep.h"
@@ -132,10 +134,22 @@ extern "C" int open(const char* path, int flags, ...) {
   return fd;
 }
 
-static void onNewConnection(int sockfd, const InetAddress&) {
+// `ip:port` of an IPv4 socket address, printed by the harness itself (not by the code under test)
+static std::string addrText(const struct sockaddr_in& a) {
+  char ip[INET_ADDRSTRLEN] = ""; inet_ntop(AF_INET, &a.sin_addr, ip, sizeof ip);
+  char buf[64]; snprintf(buf, sizeof buf, "%s:%u", ip, static_cast<unsigned>(ntohs(a.sin_port)));
+  return buf;
+}
+
+static void onNewConnection(int sockfd, const InetAddress& peerAddr) {
   std::map<int, int>::iterator it = g_accepted.find(sockfd);
   int k = it == g_accepted.end() ? -1 : it->second;
   emitf("cb newConn %d", k);
+  // oracle only: the peer address the callback was given, and the kernel's own answer for that descriptor
+  struct sockaddr_in pa; socklen_t pl = sizeof pa; memset(&pa, 0, sizeof pa);
+  std::string kernel = ::getpeername(sockfd, reinterpret_cast<struct sockaddr*>(&pa), &pl) == 0 && pa.sin_family == AF_INET
+                           ? addrText(pa) : std::string("?");
+  emitf("# peer %d %s kernel %s", k, peerAddr.toIpPort().c_str(), kernel.c_str());
   g_held[k] = sockfd;
 }
 
@@ -206,6 +220,9 @@ static bool interp() {
       } else {
         g_harnessFds.insert(fd);
         g_clients.push_back(fd);
+        struct sockaddr_in me; socklen_t ml = sizeof me; memset(&me, 0, sizeof me);
+        if (::getsockname(fd, reinterpret_cast<struct sockaddr*>(&me), &ml) == 0)
+          emitf("# client %zu local %s", g_clients.size(), addrText(me).c_str());
       }
     } else if (op == "clientClose") {
       size_t j = static_cast<size_t>(atoi(w[1].c_str()));
